@@ -1,0 +1,469 @@
+//go:build verif
+
+package main
+
+// Line-protocol entry for the verification harness in /verif (build tag "verif" only,
+// active only when STS_VERIF_MAIN=auth). It builds the receiver exactly as startServer
+// does (serverApp.init, then Server.Serve), so that the harness talks to the real
+// standardValidator, the real newStage closure, the real route table of Serve and the
+// real stage.Stage / log.FileIO / payload.NewDecoder over a TCP port on 127.0.0.1.
+// Gatekeepers are wrapped in a recorder that forwards every call unchanged.
+
+import (
+	"bufio"
+	"fmt"
+	"io"
+	"net"
+	nethttp "net/http"
+	"os"
+	"runtime"
+	"sort"
+	"strconv"
+	"strings"
+	"sync"
+	"time"
+
+	"github.com/arm-doe/sts"
+	"github.com/arm-doe/sts/log"
+	"github.com/arm-doe/sts/stage"
+)
+
+func init() {
+	if os.Getenv("STS_VERIF_MAIN") != "auth" {
+		return
+	}
+	verifAuthLoop()
+	os.Exit(0)
+}
+
+type verifQuietLogger struct{}
+
+func (verifQuietLogger) Debug(...interface{}) {}
+func (verifQuietLogger) Info(...interface{})  {}
+func (verifQuietLogger) Error(...interface{}) {}
+func (verifQuietLogger) Recent(int) []string  { return nil }
+
+func verifEsc(s string) string {
+	if s == "" {
+		return "-"
+	}
+	if s == "-" {
+		return "%2d"
+	}
+	var b strings.Builder
+	for _, c := range []byte(s) {
+		switch {
+		case c >= 'a' && c <= 'z', c >= 'A' && c <= 'Z', c >= '0' && c <= '9',
+			c == '.', c == '_', c == '/', c == '-':
+			b.WriteByte(c)
+		default:
+			fmt.Fprintf(&b, "%%%02x", c)
+		}
+	}
+	return b.String()
+}
+
+func verifUnesc(s string) string {
+	if s == "-" {
+		return ""
+	}
+	var b []byte
+	for i := 0; i < len(s); i++ {
+		if s[i] == '%' && i+2 <= len(s)-1 {
+			if v, err := strconv.ParseUint(s[i+1:i+3], 16, 8); err == nil {
+				b = append(b, byte(v))
+				i += 2
+				continue
+			}
+		}
+		b = append(b, s[i])
+	}
+	return string(b)
+}
+
+// verifList decodes "~" (empty list) or comma-joined escaped items.
+func verifList(s string) []string {
+	if s == "~" {
+		return nil
+	}
+	var out []string
+	for _, it := range strings.Split(s, ",") {
+		out = append(out, verifUnesc(it))
+	}
+	return out
+}
+
+type verifRecorder struct {
+	mu    sync.Mutex
+	calls []string
+}
+
+func (r *verifRecorder) add(kind, source string, fields ...string) {
+	esc := make([]string, len(fields))
+	for i, f := range fields {
+		esc[i] = verifEsc(f)
+	}
+	r.mu.Lock()
+	r.calls = append(r.calls, kind+":"+verifEsc(source)+":"+strings.Join(esc, ","))
+	r.mu.Unlock()
+}
+
+func (r *verifRecorder) take() []string {
+	r.mu.Lock()
+	defer r.mu.Unlock()
+	c := r.calls
+	r.calls = nil
+	return c
+}
+
+// verifGK forwards to the real gatekeeper (inner) and records the calls; with inner ==
+// nil it is a stub whose readiness is a flag.
+type verifGK struct {
+	source string
+	inner  sts.GateKeeper
+	ready  bool
+	rec    *verifRecorder
+}
+
+func verifTriple(name, renamed, prev string) string {
+	return verifEsc(name) + "|" + verifEsc(renamed) + "|" + verifEsc(prev)
+}
+
+func (g *verifGK) Recover() {
+	if g.inner != nil {
+		g.inner.Recover()
+	}
+}
+func (g *verifGK) CleanNow() {
+	if g.inner != nil {
+		g.inner.CleanNow()
+	}
+}
+func (g *verifGK) Prune(d time.Duration) {
+	if g.inner != nil {
+		g.inner.Prune(d)
+	}
+}
+func (g *verifGK) Ready() bool {
+	if g.inner != nil {
+		return g.inner.Ready()
+	}
+	return g.ready
+}
+func (g *verifGK) Scan(version string) ([]byte, error) {
+	g.rec.add("scan", g.source, version)
+	if g.inner != nil {
+		return g.inner.Scan(version)
+	}
+	return []byte("[]"), nil
+}
+func (g *verifGK) Prepare(parts []sts.Binned) {
+	var names []string
+	for _, p := range parts {
+		names = append(names, verifTriple(p.GetName(), p.GetRenamed(), p.GetPrev()))
+	}
+	g.rec.add("prepare", g.source, names...)
+	if g.inner != nil {
+		g.inner.Prepare(parts)
+	}
+}
+func (g *verifGK) Receive(file *sts.Partial, r io.Reader) error {
+	g.rec.add("receive", g.source, verifTriple(file.Name, file.Renamed, file.Prev))
+	if g.inner != nil {
+		return g.inner.Receive(file, r)
+	}
+	_, err := io.Copy(io.Discard, r)
+	return err
+}
+func (g *verifGK) Received(parts []sts.Binned) int {
+	var names []string
+	for _, p := range parts {
+		names = append(names, verifTriple(p.GetName(), p.GetRenamed(), p.GetPrev()))
+	}
+	g.rec.add("received", g.source, names...)
+	if g.inner != nil {
+		return g.inner.Received(parts)
+	}
+	return 0
+}
+func (g *verifGK) GetFileStatus(relPath string, sent time.Time) int {
+	g.rec.add("status", g.source, relPath)
+	if g.inner != nil {
+		return g.inner.GetFileStatus(relPath, sent)
+	}
+	return sts.ConfirmNone
+}
+func (g *verifGK) Stop(force bool) {
+	if g.inner != nil {
+		g.inner.Stop(force)
+		return
+	}
+	g.ready = false
+}
+
+func verifStageDirs(gk sts.GateKeeper) (string, string, string, bool) {
+	st, ok := gk.(*stage.Stage)
+	if !ok {
+		return "", "", "", false
+	}
+	root, target, lg := st.VerifDirs()
+	logRoot := ""
+	if f, ok := lg.(*log.FileIO); ok {
+		logRoot = f.VerifRoot()
+	}
+	return root, target, logRoot, true
+}
+
+func verifAuthLoop() {
+	in := bufio.NewReaderSize(os.Stdin, 1<<20)
+	out := bufio.NewWriter(os.Stdout)
+	reply := func(s string) {
+		out.WriteString(s)
+		out.WriteByte('\n')
+		out.Flush()
+	}
+	log.InitExternal(verifQuietLogger{})
+	var a *serverApp
+	var factory sts.GateKeeperFactory // the real newStage closure
+	rec := &verifRecorder{}
+	wrap := func(source string, inner sts.GateKeeper) *verifGK {
+		return &verifGK{source: source, inner: inner, rec: rec}
+	}
+	// A stage that has never been polled has no cache start time; its first search for a
+	// predecessor then walks the receive log day by day from year 0 (seconds of failed opens).
+	// One poll, as any sender issues, gives it a start time of "now".
+	warm := func(gk sts.GateKeeper) sts.GateKeeper {
+		gk.GetFileStatus("verif-warm-up", time.Now())
+		return gk
+	}
+	for {
+		line, err := in.ReadString('\n')
+		if err != nil && line == "" {
+			return
+		}
+		w := strings.Fields(line)
+		if len(w) == 0 {
+			continue
+		}
+		switch {
+		case w[0] == "start" && len(w) == 7 && a == nil:
+			// start <stage> <final> <logs-in> <serve> <logs-flow> <port>
+			port, perr := strconv.Atoi(w[6])
+			if perr != nil {
+				reply("bad-op")
+				continue
+			}
+			conf := &sts.ServerConf{
+				Dirs: &sts.ServerDirs{
+					Stage: verifUnesc(w[1]), Final: verifUnesc(w[2]), LogIn: verifUnesc(w[3]),
+					Serve: verifUnesc(w[4]), LogMsg: verifUnesc(w[5]),
+				},
+				Server: &sts.HTTPServer{Host: "127.0.0.1", Port: port},
+			}
+			a = &serverApp{conf: conf}
+			// Forced schedule for S10: with one P the goroutines started by init()
+			// (go stager.Recover()) do not run before init returns and the flags are read.
+			prevProcs := runtime.GOMAXPROCS(1)
+			ierr := a.init()
+			var pre []string
+			if ierr == nil {
+				for name, gk := range a.server.GateKeepers {
+					pre = append(pre, verifEsc(name)+"="+map[bool]string{true: "1", false: "0"}[gk.Ready()])
+				}
+			}
+			runtime.GOMAXPROCS(prevProcs)
+			if ierr != nil {
+				reply("error " + verifEsc(ierr.Error()))
+				a = nil
+				continue
+			}
+			sort.Strings(pre)
+			factory = a.server.GateKeeperFactory
+			a.server.GateKeeperFactory = func(source string) sts.GateKeeper {
+				rec.add("new", source)
+				return wrap(source, warm(factory(source)))
+			}
+			wrapped := map[string]sts.GateKeeper{}
+			for name, gk := range a.server.GateKeepers {
+				wrapped[name] = wrap(name, gk)
+			}
+			a.server.VerifSwapGateKeepers(wrapped)
+			stop := make(chan bool)
+			done := make(chan bool)
+			go a.server.Serve(stop, done)
+			up := false
+			for i := 0; i < 500 && !up; i++ {
+				c, derr := net.DialTimeout("tcp", fmt.Sprintf("127.0.0.1:%d", port), 200*time.Millisecond)
+				if derr == nil {
+					c.Close()
+					up = true
+				} else {
+					time.Sleep(5 * time.Millisecond)
+				}
+			}
+			if !up {
+				reply("error not-listening")
+				continue
+			}
+			// Is it this process that listens on the port (Serve only logs a failed bind)?
+			// A request for a nonce source must show up in this process's recorder.
+			nonce := fmt.Sprintf("verif-nonce-%d-%d", os.Getpid(), time.Now().UnixNano())
+			mine := false
+			if resp, herr := nethttp.Get(fmt.Sprintf("http://127.0.0.1:%d/partials?source=%s", port, nonce)); herr == nil {
+				io.Copy(io.Discard, resp.Body)
+				resp.Body.Close()
+			}
+			for _, c := range rec.take() {
+				if strings.HasPrefix(c, "scan:"+nonce+":") {
+					mine = true
+				}
+			}
+			if !mine {
+				reply("error port-taken")
+				continue
+			}
+			table := a.server.VerifSwapGateKeepers(map[string]sts.GateKeeper{})
+			delete(table, nonce)
+			a.server.VerifSwapGateKeepers(table)
+			reply(strings.TrimSpace("ok " + strings.Join(pre, " ")))
+		case a == nil:
+			reply("bad-op")
+		case w[0] == "dirs" && len(w) == 5:
+			// dirs <stage> <final> <logs-in> <serve>: new directories, empty gatekeeper table
+			a.conf.Dirs.Stage, a.conf.Dirs.Final = verifUnesc(w[1]), verifUnesc(w[2])
+			a.conf.Dirs.LogIn, a.conf.Dirs.Serve = verifUnesc(w[3]), verifUnesc(w[4])
+			a.server.ServeDir = a.conf.Dirs.Serve
+			old := a.server.VerifSwapGateKeepers(map[string]sts.GateKeeper{})
+			for _, gk := range old {
+				if gk != nil {
+					gk.Stop(true)
+				}
+			}
+			rec.take()
+			reply("ok")
+		case w[0] == "conf" && len(w) == 3:
+			a.conf.Sources = verifList(w[1])
+			a.conf.Keys = verifList(w[2])
+			reply("ok")
+		case w[0] == "stub" && len(w) == 3:
+			a.server.VerifSetGateKeeper(verifUnesc(w[1]),
+				&verifGK{source: verifUnesc(w[1]), ready: w[2] == "1", rec: rec})
+			reply("ok")
+		case w[0] == "make" && len(w) == 2:
+			// create the real gatekeeper of a source through the real factory (as a first
+			// request would) without recording it
+			src := verifUnesc(w[1])
+			if _, ok := a.server.VerifGetGateKeeper(src); !ok {
+				a.server.VerifSetGateKeeper(src, wrap(src, warm(factory(src))))
+			}
+			reply("ok")
+		case (w[0] == "stop" || w[0] == "recover" || w[0] == "recover-async" || w[0] == "ready" || w[0] == "inpipe") && len(w) == 2:
+			gk, ok := a.server.VerifGetGateKeeper(verifUnesc(w[1]))
+			if !ok || gk == nil {
+				reply("none")
+				continue
+			}
+			switch w[0] {
+			case "stop":
+				gk.Stop(true)
+				reply("ok")
+			case "recover":
+				gk.Recover()
+				reply("ok")
+			case "recover-async":
+				go gk.Recover()
+				reply("ok")
+			case "ready":
+				reply(map[bool]string{true: "1", false: "0"}[gk.Ready()])
+			case "inpipe":
+				n := -1
+				if v, ok := gk.(*verifGK); ok && v.inner != nil {
+					if st, ok := v.inner.(*stage.Stage); ok {
+						n = st.VerifInPipe()
+					}
+				}
+				reply(strconv.Itoa(n))
+			}
+		case w[0] == "gkdirs" && len(w) == 2:
+			// the directories of the gatekeeper a source already has
+			gk, ok := a.server.VerifGetGateKeeper(verifUnesc(w[1]))
+			if !ok || gk == nil {
+				reply("none")
+				continue
+			}
+			v, isWrap := gk.(*verifGK)
+			if !isWrap || v.inner == nil {
+				reply("stub")
+				continue
+			}
+			root, target, logRoot, ok := verifStageDirs(v.inner)
+			if !ok {
+				reply("error not-a-stage")
+				continue
+			}
+			reply(verifEsc(root) + " " + verifEsc(target) + " " + verifEsc(logRoot))
+		case w[0] == "view" && len(w) == 3:
+			// what the sender of a source is told right now: GetFileStatus of each name and the
+			// partials (the two calls routeValidate and routePartials forward), unrecorded
+			gk, ok := a.server.VerifGetGateKeeper(verifUnesc(w[1]))
+			if !ok || gk == nil {
+				reply("none")
+				continue
+			}
+			v, isWrap := gk.(*verifGK)
+			if !isWrap || v.inner == nil {
+				reply("stub")
+				continue
+			}
+			var sb strings.Builder
+			fmt.Fprintf(&sb, "ready=%v", v.inner.Ready())
+			for _, n := range verifList(w[2]) {
+				fmt.Fprintf(&sb, " %s=%d", verifEsc(n), v.inner.GetFileStatus(n, time.Now()))
+			}
+			type scanned struct {
+				js  []byte
+				err error
+			}
+			ch := make(chan scanned, 1)
+			go func() {
+				js, serr := v.inner.Scan("1")
+				ch <- scanned{js, serr}
+			}()
+			select {
+			case sc := <-ch:
+				if sc.err != nil {
+					sb.WriteString(" scan-error")
+				} else {
+					sb.WriteString(" " + verifEsc(string(sc.js)))
+				}
+			case <-time.After(5 * time.Second):
+				sb.WriteString(" scan-held")
+			}
+			reply(sb.String())
+		case w[0] == "calls" && len(w) == 1:
+			c := rec.take()
+			if len(c) == 0 {
+				reply("-")
+			} else {
+				reply(strings.Join(c, " "))
+			}
+		case w[0] == "valid" && len(w) == 3:
+			reply(map[bool]string{true: "1", false: "0"}[a.standardValidator(verifUnesc(w[1]), verifUnesc(w[2]))])
+		case w[0] == "srcdirs" && len(w) == 2:
+			// the directories the real newStage closure gives a source
+			gk := factory(verifUnesc(w[1]))
+			root, target, logRoot, ok := verifStageDirs(gk)
+			gk.Stop(true)
+			if !ok {
+				reply("error not-a-stage")
+				continue
+			}
+			reply(verifEsc(root) + " " + verifEsc(target) + " " + verifEsc(logRoot))
+		case w[0] == "quit":
+			reply("ok")
+			return
+		default:
+			reply("bad-op")
+		}
+	}
+}
